@@ -16,10 +16,10 @@ func init() {
 // gramNil computes, over the grammar actions and the constructor bodies, which grammar symbols may carry a nil
 // semantic value after an error was recorded, and which node kinds a symbol may carry.
 type gramNil struct {
-	mayNil map[string]bool            // symbol -> its value may be nil
-	kinds  map[string]map[int64]bool  // symbol -> node kinds it may carry
-	ctorNilFeasible map[string]bool    // constructor -> has a feasible `return nil`
-	why    map[string]string
+	mayNil          map[string]bool           // symbol -> its value may be nil
+	kinds           map[string]map[int64]bool // symbol -> node kinds it may carry
+	ctorNilFeasible map[string]bool           // constructor -> has a feasible `return nil`
+	why             map[string]string
 }
 
 // ctorResultKinds: kinds of nodes a constructor returns through ast.Wrap* calls; returnsParam: indices of
